@@ -86,6 +86,11 @@ CHECKS = {
          'A 34-payload alphabet (tags, attribute break-outs for both quote styles, closing tags, script in two spellings, bare ampersand, entity look-alikes, CDATA / comment / PI delimiters, C0/C1 controls, U+FFFE, U+2028, javascript: URL, word-wrap-point literals, reST injection through non-LF line separators and backquotes) is planted in each of 48 sinks (docstring words, inline code, literal/doctest/code blocks, field bodies and arguments, @ivar names, xref targets and labels, URLs, titles - per docformat; string/bytes/multi-line/regex/f-string constants, defaults, annotations, Literal, type comments, decorators, bases and class keywords, __all__/__docformat__, deprecated() texts, zope attributes, attribute docstrings, constructor summaries, summaries, __doc__ assignment, overloads, attrs, file names, project name/URL/version options). Every case is a full driver run; every page must parse as XML and the markers may occur only in text nodes and attribute values, never as element/attribute names, comments, CDATA, PIs, inside script/style, in on* attributes or javascript: URLs; verbatim sinks must show the payload literally (escaped exactly once). Thorough adds all ordered pairs of 43 sinks with the two most dangerous payloads.',
          'Trusted: expat as well-formedness authority; the marker discipline (an injection is recognisable by name, no reference run needed). Explicit raw/include directives and explicit link targets written by the docstring author are outside the statement.',
          'DESIGN.md section 5, C10'),
+ 'C16': ('exploration',
+         'exhaustive enumeration of problem kind x owner x docformat x layout x position x offset as generated modules with known ground-truth lines, run through the real driver; stdout lines and exit statuses compared with the planted truth',
+         'Each generated module carries exactly one planted problem (unresolvable cross-reference, markup error, unknown field, documented parameter that does not exist) in a module / class / function / method / attribute docstring, under epytext, reST, google and numpy, in 6 layouts (text on the opening line, below it, after 1 or 2 blank lines, after a whitespace-only line, after trailing blanks on the quote line) x nesting 0-2 x raw/plain x decorator, at 5 positions (first / second line of the first paragraph, second paragraph, list item, field body) and offsets {0,1,3}; 20 modules per -W run, attributed by file name (quick 5 136, thorough ~25 000 modules). Every line reported for the file must lie in [start of the containing block, line of the problem] for epytext/reST, inside the docstring for google/numpy; offset k must shift the report by exactly k; the -W status must be 3 iff anything was printed. 40 single-problem runs check the statuses with and without -W (2 iff a fatal markup error, else 0).',
+         'Trusted: the source generator that knows the physical lines; message wording is not judged.',
+         'DESIGN.md section 5, C16'),
 }
 
 
